@@ -32,6 +32,7 @@ type propInfo struct {
 // filled from the worker at run time (loadInfo).
 var props = map[string]*propInfo{
 	"C01": {},
+	"C07": {},
 }
 
 func loadInfo(bin, id string, p *propInfo) error {
